@@ -114,6 +114,7 @@ UNIT_DRIVERS = {
     "flush_protocol": ["wal::crash_enum_quick", "snapshot::timetravel_enum_quick"],
     "queue_dequeue": ["transaction::conflict_enum"],
     "bptree_freelist": ["bptree_enum_quick"],
+    "bptree_header": ["bptree_enum_quick"],
     "arena_bound": ["commit::oversize_enum"],
     "startup_protocol": ["wal::crash_enum_quick"],
     "oracle_restore": ["levels::checkpoint_enum_quick"],
